@@ -573,15 +573,18 @@ def _flags(ctx, prog, probe, step):
     ctx.check(seen.get('ext') and seen.get('LAND'), 'R12.5', 'flags/sites', probe.where(0), probe.path, 'flag assignment sites not found (Cartesian extension, LAND)', found=str(sorted(seen)))
 
 
+ATOMIC_WRITES = ('store', 'swap', 'fetch_or', 'fetch_and', 'fetch_xor', 'fetch_nand', 'fetch_update', 'compare_exchange', 'compare_exchange_weak', 'compare_and_swap')
+
+
 def _stop_flag(ctx, prog, plan, probe, plan_cl):
     stores = []
     for p in prog.reachable_bodies([plan.path]):
         b = prog.bodies[p]
         for bi, t in b.calls():
-            if cname(callee_name(t)).endswith('::store') and 'Atomic' in callee_name(t):
+            if cname(callee_name(t)).split('::')[-1] in ATOMIC_WRITES and 'Atomic' in callee_name(t):
                 stores.append((b, bi, t))
     ok = len(stores) == 1
-    msg = '%d stores of the stop flag' % len(stores)
+    msg = '%d writes of the stop flag (%s)' % (len(stores), ', '.join('%s at %s' % (cname(callee_name(t)).split('::')[-1], b.where(bi)) for b, bi, t in stores))
     if ok:
         b, bi, t = stores[0]
         val = util.const_val(b.op_term(t['args'][1], (bi, None)))
